@@ -1,0 +1,214 @@
+//go:build verif
+
+package verifapi
+
+// Hooks of the keyspace check (C01): direct calls into the libraries and
+// internal packages that the keyspace model treats as oracles (field.ValueOf,
+// geojson, sjson/gjson, geohash), plus in-package access to field.List and to
+// the object head codec.
+
+import (
+	"strconv"
+	"sync"
+
+	"github.com/mmcloughlin/geohash"
+	"github.com/tidwall/geojson"
+	"github.com/tidwall/geojson/geometry"
+	"github.com/tidwall/gjson"
+	"github.com/tidwall/sjson"
+	"github.com/tidwall/tile38/internal/collection"
+	"github.com/tidwall/tile38/internal/field"
+	"github.com/tidwall/tile38/internal/object"
+)
+
+// KsValueOf returns field.ValueOf(data) as (kind, data).
+func KsValueOf(data string) (int, string) {
+	v := field.ValueOf(data)
+	return int(v.Kind()), v.Data()
+}
+
+// KsMakeField returns field.Make(name, data) as (name, kind, data).
+func KsMakeField(name, data string) (string, int, string) {
+	f := field.Make(name, data)
+	return f.Name(), int(f.Value().Kind()), f.Value().Data()
+}
+
+// KsGjsonGet returns gjson.Get(json, path) as (exists, kind, String(), Raw).
+func KsGjsonGet(json, path string) (bool, int, string, string) {
+	r := gjson.Get(json, path)
+	return r.Exists(), int(r.Type), r.String(), r.Raw
+}
+
+// KsGjsonParse returns gjson.Parse(json) as (exists, String(), Raw).
+func KsGjsonParse(json string) (bool, string, string) {
+	r := gjson.Parse(json)
+	return r.Exists(), r.String(), r.Raw
+}
+
+// KsSjsonSet calls sjson.SetRaw (raw) or sjson.Set.
+func KsSjsonSet(raw bool, json, path, val string) (string, error) {
+	if raw {
+		return sjson.SetRaw(json, path, val)
+	}
+	return sjson.Set(json, path, val)
+}
+
+// KsSjsonDelete calls sjson.Delete.
+func KsSjsonDelete(json, path string) (string, error) { return sjson.Delete(json, path) }
+
+var ksGeoMu sync.Mutex
+var ksGeoCache = map[string]geojson.Object{}
+
+func ksGeoKey(spatial bool, text string) string {
+	if spatial {
+		return "1" + text
+	}
+	return "0" + text
+}
+
+func ksRemember(o geojson.Object) (bool, string) {
+	_, spatial := o.(geojson.Spatial)
+	text := o.String()
+	ksGeoMu.Lock()
+	if _, ok := ksGeoCache[ksGeoKey(spatial, text)]; !ok {
+		ksGeoCache[ksGeoKey(spatial, text)] = o
+	}
+	ksGeoMu.Unlock()
+	return spatial, text
+}
+
+// KsMakeGeo builds the geometry the way cmdSET does for POINT (kind 1: lat lon
+// [z]), BOUNDS (2), HASH (3) and OBJECT (4) and returns (spatial, String()).
+// The float arguments must already be known to parse.
+func KsMakeGeo(kind int, args []string) (bool, string, error) {
+	pf := func(s string) float64 { f, _ := strconv.ParseFloat(s, 64); return f }
+	var o geojson.Object
+	switch kind {
+	case 1:
+		y, x := pf(args[0]), pf(args[1])
+		if len(args) > 2 {
+			o = geojson.NewPointZ(geometry.Point{X: x, Y: y}, pf(args[2]))
+		} else {
+			o = geojson.NewPoint(geometry.Point{X: x, Y: y})
+		}
+	case 2:
+		o = geojson.NewRect(geometry.Rect{
+			Min: geometry.Point{X: pf(args[1]), Y: pf(args[0])},
+			Max: geometry.Point{X: pf(args[3]), Y: pf(args[2])},
+		})
+	case 3:
+		lat, lon := geohash.Decode(args[0])
+		o = geojson.NewPoint(geometry.Point{X: lon, Y: lat})
+	default:
+		var err error
+		o, err = geojson.Parse(args[0], geojson.DefaultParseOptions)
+		if err != nil {
+			return false, "", err
+		}
+	}
+	sp, text := ksRemember(o)
+	return sp, text, nil
+}
+
+func ksGeo(spatial bool, text string) geojson.Object {
+	ksGeoMu.Lock()
+	o, ok := ksGeoCache[ksGeoKey(spatial, text)]
+	ksGeoMu.Unlock()
+	if ok {
+		return o
+	}
+	if !spatial {
+		return collection.String(text)
+	}
+	o, err := geojson.Parse(text, geojson.DefaultParseOptions)
+	if err != nil {
+		return collection.String(text)
+	}
+	return o
+}
+
+func ksZ(o geojson.Object) float64 {
+	for {
+		switch g := o.(type) {
+		case *geojson.Point:
+			return g.Z()
+		case *geojson.Feature:
+			o = g.Base()
+		default:
+			return 0
+		}
+	}
+}
+
+func ksF(f float64) string { return strconv.FormatFloat(f, 'f', -1, 64) }
+
+// KsGeoPoint is the RESP "POINT" rendering of a geometry: lat lon [z].
+func KsGeoPoint(spatial bool, text string) []string {
+	o := ksGeo(spatial, text)
+	c := o.Center()
+	if z := ksZ(o); z != 0 {
+		return []string{ksF(c.Y), ksF(c.X), ksF(z)}
+	}
+	return []string{ksF(c.Y), ksF(c.X)}
+}
+
+// KsGeoBounds is the RESP "BOUNDS" rendering: minlat minlon maxlat maxlon.
+func KsGeoBounds(spatial bool, text string) []string {
+	r := ksGeo(spatial, text).Rect()
+	return []string{ksF(r.Min.Y), ksF(r.Min.X), ksF(r.Max.Y), ksF(r.Max.X)}
+}
+
+// KsGeoHash is the geohash of the centre.
+func KsGeoHash(spatial bool, text string, precision int) string {
+	c := ksGeo(spatial, text).Center()
+	return geohash.EncodeWithPrecision(c.Y, c.X, uint(precision))
+}
+
+// KsFieldEntry is one entry of a field list as Scan yields it.
+type KsFieldEntry struct {
+	Name string
+	Kind int
+	Data string
+}
+
+// KsFieldList wraps an internal/field.List.
+type KsFieldList struct{ l field.List }
+
+// Set applies List.Set(field.Make(name, data)) and returns the made field.
+func (k *KsFieldList) Set(name, data string) KsFieldEntry {
+	f := field.Make(name, data)
+	k.l = k.l.Set(f)
+	return KsFieldEntry{f.Name(), int(f.Value().Kind()), f.Value().Data()}
+}
+
+// Get calls List.Get(name).
+func (k *KsFieldList) Get(name string) KsFieldEntry {
+	f := k.l.Get(name)
+	return KsFieldEntry{f.Name(), int(f.Value().Kind()), f.Value().Data()}
+}
+
+// Scan lists the entries in Scan order.
+func (k *KsFieldList) Scan() []KsFieldEntry {
+	var out []KsFieldEntry
+	k.l.Scan(func(f field.Field) bool {
+		out = append(out, KsFieldEntry{f.Name(), int(f.Value().Kind()), f.Value().Data()})
+		return true
+	})
+	return out
+}
+
+// Len calls List.Len.
+func (k *KsFieldList) Len() int { return k.l.Len() }
+
+// KsHead builds object.New(id, geometry, expires, nil) and reads the id and
+// the deadline back through the head codec.
+func KsHead(id string, point bool, expires int64) (string, int64) {
+	var g geojson.Object
+	if point {
+		g = geojson.NewPoint(geometry.Point{X: 1, Y: 2})
+	} else {
+		g = collection.String("s")
+	}
+	o := object.New(id, g, expires, field.List{})
+	return o.ID(), o.Expires()
+}
